@@ -743,6 +743,120 @@ def build_named(rng, setup, d, names, tags, extra, plain2d=None, parent_T=None, 
 
 
 
+# ------------------------------------------------------------------ the same projection again after in-place changes (stream:reproject)
+#
+# `named` layout with one difference: register 0 (the parent) is changed in place between rounds of projections; every op
+# carries the round it belongs to (`_epoch`), ops that change the parent carry `_mut`.  The oracle compares every result
+# with the parent as observed just before the call, and every result already returned must stay what it was.
+
+ENABLE_REPROJECT = True
+REPROJECT_MUTATORS = ["set_cell"] * 5 + ["partial_normalize"] * 4 + ["fill", "fill_n", "imul", "idiv", "iadd", "normalize",
+                                                                     "set_dtype", "merge"]
+REPROJECT_MODEL_OPS = ("fill", "imul", "merge")
+
+
+def build_reproject(rng, d=None, dtype=None, force=None):
+    d = d or rng.choice([2, 2, 2, 3, 3, 4])
+    dt = dtype or rng.choice(["int64", "float64", "float64", "int32"])
+    init, axes = rand_nd_op(rng, d=d, names=False, dtype=dt)
+    names = rng.sample(["x", "y", "z", "t", "a", "b"], d) if rng.random() < 0.75 else None
+    init["names"] = names
+    isint = dt.startswith("int")
+    size = len(init["freq"])
+    if all(Fraction(v) == 0 for v in init["freq"]):
+        init["freq"][rng.randrange(size)] = "2"
+    other = dict(copy.deepcopy(init), out=1)
+    other["freq"] = [rs(rng.choice([0, 1, 2, 4]) if isint else rng.choice([0, 0.5, 1, 2.25])) for _ in range(size)]
+    if other.get("err2") is not None:
+        other["err2"] = [rs(rng.randint(0, 5)) for _ in range(size)]
+    setup = [init, other]
+    believed = list(names) if names else [f"axis{i}" for i in range(d)]     # (default names address the axes too)
+    b = NamedBuilder(rng, believed, d, None, d == 2, 0.5)
+    b.nxt = 2
+    subsets = [list(s) for m in range(1, d) for s in itertools.combinations(range(d), m)]
+    if d == 4:
+        subsets = rng.sample(subsets, 5)
+    tags = ["stream:reproject", f"reproject_dtype:{dt}"]
+    shape = [len(a[1]) for a in axes]
+    merged = False
+    n_mut = rng.randint(2, 4)
+    muts = [rng.choice(REPROJECT_MUTATORS) for _ in range(n_mut)]
+    if force:
+        muts[0] = force
+    tol = False
+
+    def round_(epoch, share):
+        lo = len(b.ops)
+        for s_ in subsets:
+            if rng.random() > share:
+                continue
+            order = list(s_)
+            rng.shuffle(order)
+            b.projection(0, order, rng.choice([0.0, 1.0, 0.5]))
+        if rng.random() < 0.6 * share + 0.2:
+            b.accumulate(0, rng.randrange(d), 0.5)
+        if d == 2 and rng.random() < 0.6:
+            t = b.transpose(0)
+            if rng.random() < 0.5:
+                b.projection(t, [rng.randrange(2)], 0.5)
+        for o in b.ops[lo:]:
+            o["_epoch"] = epoch
+
+    round_(0, 1.0)
+    for e, m in enumerate(muts, start=1):
+        if m == "partial_normalize" and d != 2:
+            m = "set_cell"
+        if m == "iadd" and merged:
+            m = "imul"
+        op = {"h": 0, "_mut": True, "_epoch": e}
+        if m == "set_cell":
+            which = rng.choice(["frequencies", "frequencies", "errors2"])
+            idx = [0] * d if merged else [rng.randrange(n) for n in shape]
+            how = rng.choice(["set", "add"])
+            v = rng.choice([1, 2, 3, 7, 16]) if (isint or rng.random() < 0.5) else rng.choice([0.5, 1.75, 6.25])
+            op.update({"op": "set_cell", "which": which, "idx": idx, "how": how, "v": rs(v)})
+        elif m == "partial_normalize":
+            ax = rng.randrange(2)
+            op.update({"op": "partial_normalize", "axis": b.ref(0, ax), "inplace": True})
+            tol = True
+        elif m == "fill":
+            v = [midpoint(rng.choice(a[1])) for a in axes]
+            op.update({"op": "fill", "v": [rs(x) for x in v]}, **({"w": rs(rng.choice([1, 2, 3])), "wk": "pyint"} if isint or rng.random() < 0.4
+                                                                else {"w": rs(rng.choice([0.5, 1.5, 2.25])), "wk": "pyfloat"}))
+        elif m == "fill_n":
+            rows = [[rs(midpoint(rng.choice(a[1]))) for a in axes] for _ in range(rng.randint(1, 4))]
+            ws = None if rng.random() < 0.5 else [rs(rng.choice([1, 2, 3]) if isint else rng.choice([0.5, 1, 2.5])) for _ in rows]
+            op.update({"op": "fill_n", "rows": rows, "ws": ws})
+        elif m == "imul":
+            op.update({"op": "imul"}, **({"c": rs(rng.choice([2, 3])), "k": "pyint"} if isint or rng.random() < 0.4
+                                         else {"c": rs(rng.choice([0.5, 1.5, 4.0])), "k": "pyfloat"}))
+        elif m == "idiv":
+            op.update({"op": "idiv", "c": rs(rng.choice([2, 4, 0.5])), "k": "pyfloat"})
+            isint = False
+        elif m == "iadd":
+            op.update({"op": "iadd", "o": 1})
+        elif m == "normalize":
+            op.update({"op": "normalize", "inplace": True})
+            tol = True
+            isint = False
+        elif m == "set_dtype":
+            op.update({"op": "set_dtype", "dtype": "float64" if isint else "float64", "via_property": rng.random() < 0.3})
+            isint = False
+        elif m == "merge":
+            op.update({"op": "merge", "amount": 2, "axis": rng.randrange(d), "inplace": True})
+            merged = True
+        if m in ("partial_normalize",):
+            isint = False
+        tags.append(f"reproject:{m}")
+        b.ops.append(op)
+        round_(e, 0.85)
+    extra = {"reproject": True}
+    if tol:
+        extra["reproject_tol"] = True
+    return dict({"kind": "histn", "layout": "named", "ops": setup + b.ops, "tags": tags + [f"d:{d}"], "setup": 2,
+                 "_names": believed, "_prov0": None}, **extra)
+
+
 # ------------------------------------------------------------------ non-finite contents (stream:nonfinite)
 #
 # Float histograms in which some cell's content and / or squared error is NaN or +inf, reached the ways a user reaches them:
@@ -954,6 +1068,21 @@ def arr_nf(vals, dt):
 def step9(s, op, log):
     """implnd.step plus the two ways of making a parent of a transformed class"""
     name = op["op"]
+    if name == "set_cell":
+        # an element edit through the array the public getter returns: h.frequencies[idx] = v / h.errors2[idx] += v
+        try:
+            x = s.get(op["h"])
+            a = x.frequencies if op["which"] == "frequencies" else x.errors2
+            v = implnd.fl(op["v"])
+            v = int(v) if a.dtype.kind in "iu" and float(v).is_integer() else v
+            if op.get("how") == "add":
+                a[tuple(op["idx"])] += v
+            else:
+                a[tuple(op["idx"])] = v
+            return "ok"
+        except Exception as e:
+            log.append(f"{name}: {type(e).__name__}: {e}"[:200])
+            return implnd.REFUSED
     if name in ("div_array", "mul_inf"):
         # h / array under config.enable_free_arithmetics(); h * inf (inf * h, h *= inf), inside or outside free arithmetics
         from physt.config import config
@@ -1134,6 +1263,8 @@ class C09(HistNProp):
     def gen_case(self, rng, k, tier):
         narrow = (k % 8 == 3) or (tier == "search" and k % 2 == 1)
         big = ENABLE_BEYOND53 and ((k % 8 == 6) or (tier == "search" and k % 4 == 2))
+        if ENABLE_REPROJECT and k % 16 == 2:
+            return build_reproject(rng)
         if ENABLE_TRANSFORMED and (k % 16 == 0 or (tier == "search" and k % 16 == 4)):
             return self.gen_transformed(rng)
         if ENABLE_ODD_NAMES and (k % 16 == 8 or (tier == "search" and k % 16 == 12)):
@@ -1292,6 +1423,8 @@ class C09(HistNProp):
         # results whose only axis has no name are outside the model: those cases are judged by the oracle alone
         if case.get("no_model"):
             return None
+        if case.get("reproject") and any(o.get("_mut") and o["op"] not in REPROJECT_MODEL_OPS for o in case["ops"]):
+            return None         # (the driver has no element edits; the other in-place writers are judged by the oracle alone)
         if case.get("nonfinite") and (any(o["op"] in ("div_array", "mul_inf") for o in case["ops"]) or self.has_nonfinite(io)):
             return None
         if any(o["op"] == "facade" for o in case["ops"]):
@@ -1368,6 +1501,8 @@ class C09(HistNProp):
         running sums then exceed the parent type's range), directly and through set_dtype"""
         ops = case["ops"]
         ns = case.get("setup", 1)
+        if case.get("reproject"):
+            return
         if case.get("nonfinite"):
             # the same history with the cells of the parent (the non-finite ones among them) moved on by one / two places
             if ops and ops[0].get("op") in ("of_arrays", "of_special") and ops[0].get("nonfinite"):
@@ -1600,6 +1735,9 @@ class C09(HistNProp):
 
         # float32 parents of the tolerance stream: every sum may be rounded (at float32 precision); everything else exact
         tol = Fraction(1, 10**5) if case.get("tolerance") else None
+        reproject = bool(case.get("reproject"))
+        if case.get("reproject_tol"):
+            tol = Fraction(1, 10**12)       # quotients of normalize / partial_normalize: sums of them are rounded
 
         nonfinite = bool(case.get("nonfinite"))
 
@@ -1632,7 +1770,19 @@ class C09(HistNProp):
             ret = outs[k]["ret"]
             regs = outs[k]["regs"]
             before = outs[k - 1]["regs"]
-            if regs[0] != src:
+            if reproject:
+                # the parent is changed only by the ops meant to change it; results already returned stay what they were
+                if not op.get("_mut") and regs[0] != before[0]:
+                    fails.append(f"source_modified: step {k} ({op['op']}) modified the parent")
+                for r_ in range(1, len(before)):
+                    if before[r_] is not None and regs[r_] != before[r_] and op.get("out") != r_:
+                        f_ = next((f for f in sorted(before[r_]) if before[r_][f] != regs[r_].get(f)), "?")
+                        fails.append(f"earlier_result_changed: step {k} ({op['op']} on the parent) changed {self.path(case, r_)}, "
+                                     f"returned earlier, in {f_}: {before[r_].get(f_)} -> {regs[r_].get(f_)}")
+                        break
+                if op.get("_mut"):
+                    continue        # what the change does to the parent is other properties' business
+            elif regs[0] != src:
                 fails.append(f"source_modified: step {k} ({op['op']}) modified the parent")
             if op["op"] == "invalid":
                 if ret != "REFUSED":
@@ -1828,7 +1978,7 @@ class C09(HistNProp):
                 groups[tuple(case["_prov0"])] = [0]
             for k, op in enumerate(ops):
                 if k >= ns and "_prov" in op and op.get("expect") != "refused" and outs[k]["ret"] != "REFUSED" and live(op.get("out")):
-                    groups.setdefault(tuple(op["_prov"]), []).append(op["out"])
+                    groups.setdefault(tuple(op["_prov"]) + ((("epoch", op["_epoch"]),) if "_epoch" in op else ()), []).append(op["out"])
             for prov, rs_ in groups.items():
                 a = last[rs_[0]]
                 for r in rs_[1:]:
@@ -1836,7 +1986,7 @@ class C09(HistNProp):
                     for f in ("bins", "names", "freq", "err2", "shape"):
                         if a[f] != b[f]:
                             out.append(f"compose: {self.path(case, rs_[0])} and {self.path(case, r)} both hold the parent's axes "
-                                       f"{list(prov)} but differ in {f}: {a[f]} vs {b[f]}")
+                                       f"{[q for q in prov if isinstance(q, int)]} but differ in {f}: {a[f]} vs {b[f]}")
                             break
         return out
 
